@@ -47,6 +47,7 @@ ENSURES(RET == 1 || RET == -1)
 ENSURES((RET == 1) == ((IS_CA_TYPE(cert_type) && ca == 1) || (IS_ENTITY_TYPE(cert_type) && ca <= 0 && path_len_constraint == -1)))
 ;
 
+#ifndef CONTRACT_VALIDITY_RECORDING
 int x509_validity_check(time_t not_before, time_t not_after, time_t now, int max_secs)
 /* times come from asn1_time_from_str (year <= 9999) or time() */
 REQUIRES(not_before >= -1 && not_after >= -1 && now >= 0 && max_secs >= 0 && not_before <= ((time_t)1 << 40) && not_after <= ((time_t)1 << 40))
@@ -54,6 +55,7 @@ ASSIGNS()
 ENSURES(RET == 1 || RET == -1)
 ENSURES((RET == 1) == (not_before <= not_after && not_after - not_before <= (time_t)max_secs && not_before <= now && now <= not_after))
 ;
+#endif
 
 /* extKeyUsage present: RET 1 only if the purpose of the role is listed; CA roles never pass (no CA purpose in this profile) */
 int x509_ext_key_usage_check(const int *oids, size_t oids_cnt, int cert_type)
@@ -98,6 +100,7 @@ ENSURES(RET == 0 IMPLIES DER_RD_SAME(in, inlen))
 ENSURES(RET == 1 IMPLIES DER_RD_ADV(in, inlen) && *oids_cnt <= max_cnt)
 ;
 
+#ifndef CONTRACT_EXTS_RECORDING
 /* C07: the whole extension list fits the role: no unrecognised critical extension; each recognised value passed its check;
    and a certificate acting as issuer HAS a basicConstraints extension with cA = TRUE (absence is not acceptance) */
 int x509_exts_check(const uint8_t *exts, size_t extslen, int cert_type, int *path_len_constraint)
@@ -108,6 +111,7 @@ ENSURES((RET == 1 && OLD(verif_x_unknown_critical) == 0) IMPLIES verif_x_unknown
 ENSURES((RET == 1 && IS_CA_TYPE(cert_type)) IMPLIES (verif_x_bc_last_ca == 1 && verif_x_bc_last_ret == 1))
 ENSURES(RET == 1 IMPLIES *path_len_constraint >= -1)
 ;
+#endif
 
 /* ------------------------------------------------------------------ chain verification (C07) */
 #ifdef CONTRACT_CHAIN
@@ -207,5 +211,84 @@ ENSURES((RET == 1 && verif_c_ci >= 2 && verif_c_ci + 1 < verif_c_chk_calls) IMPL
 ENSURES((RET == 1 && verif_c_ci + 1 == verif_c_chk_calls) IMPLIES (verif_c_plc_ci < 0 || (int)verif_c_chk_calls - 3 <= verif_c_plc_ci))
 ENSURES(RET == 1 IMPLIES (int)verif_c_chk_calls - 3 <= depth)
 ;
+#endif
+
+/* ------------------------------------------------------------------ per-certificate profile check (C07) */
+#ifdef CONTRACT_CERT_CHECK
+#ifdef VERIF_CBMC
+int G_gd_version; size_t G_gd_serial; size_t G_gd_serial_len; int G_gd_tbs_alg; int G_gd_sig_alg; time_t G_gd_nb; time_t G_gd_na; size_t G_gd_exts; size_t G_gd_extslen; unsigned G_gd_calls;
+time_t G_now; unsigned G_time_calls;
+int G_vc_last; time_t G_vc_nb, G_vc_na, G_vc_now; unsigned G_vc_calls;
+unsigned G_nc_calls; int G_nc_bad;
+int G_ec_last; int G_ec_type; size_t G_ec_exts; size_t G_ec_extslen; unsigned G_ec_calls;
+#endif
+/* field extraction as used by x509_cert_check (the out-parameters it does not ask for are NULL) */
+int x509_cert_get_details(const uint8_t *a, size_t alen, int *version, const uint8_t **serial_number, size_t *serial_number_len,
+	int *inner_signature_algor, const uint8_t **issuer, size_t *issuer_len, time_t *not_before, time_t *not_after,
+	const uint8_t **subject, size_t *subject_len, SM2_KEY *subject_public_key, const uint8_t **issuer_unique_id, size_t *issuer_unique_id_len,
+	const uint8_t **subject_unique_id, size_t *subject_unique_id_len, const uint8_t **extensions, size_t *extensions_len,
+	int *signature_algor, const uint8_t **signature, size_t *signature_len)
+REQUIRES(alen <= (size_t)INT_MAX && RD_OK(a, alen) && version != NULL && serial_number != NULL && serial_number_len != NULL && inner_signature_algor != NULL
+	&& issuer != NULL && issuer_len != NULL && not_before != NULL && not_after != NULL && subject != NULL && subject_len != NULL && subject_public_key == NULL
+	&& issuer_unique_id == NULL && subject_unique_id == NULL && extensions != NULL && extensions_len != NULL && signature_algor != NULL && signature == NULL)
+ASSIGNS(*version, *serial_number, *serial_number_len, *inner_signature_algor, *issuer, *issuer_len, *not_before, *not_after, *subject, *subject_len,
+	*extensions, *extensions_len, *signature_algor, G_gd_version, G_gd_serial, G_gd_serial_len, G_gd_tbs_alg, G_gd_sig_alg, G_gd_nb, G_gd_na, G_gd_exts, G_gd_extslen, G_gd_calls)
+ENSURES(RET == 1 || RET == -1)
+ENSURES(G_gd_calls == OLD(G_gd_calls) + 1)
+ENSURES(RET == 1 IMPLIES *not_before >= -1 && *not_after >= -1 && *not_before <= ((time_t)1 << 40) && *not_after <= ((time_t)1 << 40))
+ENSURES(RET == 1 IMPLIES SLICE_IN(*issuer, *issuer_len, a, alen) && SLICE_IN(*subject, *subject_len, a, alen))
+/* absent extensions: NULL; the pointer is always defined constructively (an integer cast of an unconstrained pointer is not stable in CBMC) */
+ENSURES(RET == 1 IMPLIES (*extensions_len == 0 ? (*extensions == NULL || PTR_IN(a, *extensions, a + alen)) : SLICE_IN(*extensions, *extensions_len, a, alen)))
+ENSURES(RET == 1 IMPLIES (*serial_number == NULL || PTR_IN(a, *serial_number, a + alen)))
+/* recorded AFTER the constructive pointer clauses (pointer_in_range assigns the pointer) */
+ENSURES(RET == 1 IMPLIES G_gd_version == *version && G_gd_serial == (size_t)*serial_number && G_gd_serial_len == *serial_number_len && G_gd_tbs_alg == *inner_signature_algor
+	&& G_gd_sig_alg == *signature_algor && G_gd_nb == *not_before && G_gd_na == *not_after && G_gd_exts == (size_t)*extensions && G_gd_extslen == *extensions_len)
+;
+time_t time(time_t *t)
+REQUIRES(t != NULL && WR_OK(t, sizeof(*t)))
+ASSIGNS(*t, G_now, G_time_calls)
+ENSURES(RET >= 0 && RET <= ((time_t)1 << 40) && *t == RET && G_now == RET && G_time_calls == OLD(G_time_calls) + 1)
+;
+#ifdef CONTRACT_VALIDITY_RECORDING
+int x509_validity_check(time_t not_before, time_t not_after, time_t now, int max_secs)
+REQUIRES(not_before >= -1 && not_after >= -1 && now >= 0 && max_secs >= 0 && not_before <= ((time_t)1 << 40) && not_after <= ((time_t)1 << 40))
+ASSIGNS(G_vc_last, G_vc_nb, G_vc_na, G_vc_now, G_vc_calls)
+ENSURES(RET == 1 || RET == -1)
+ENSURES(G_vc_last == RET && G_vc_nb == not_before && G_vc_na == not_after && G_vc_now == now && G_vc_calls == OLD(G_vc_calls) + 1)
+;
+#endif
+int x509_name_check(const uint8_t *d, size_t dlen)
+REQUIRES(dlen <= (size_t)INT_MAX && (dlen == 0 || RD_OK(d, dlen)))
+ASSIGNS(G_nc_calls, G_nc_bad)
+ENSURES(RET == 1 || RET == -1)
+ENSURES(G_nc_calls == OLD(G_nc_calls) + 1 && G_nc_bad == (RET != 1 ? 1 : OLD(G_nc_bad)))
+;
+#ifdef CONTRACT_EXTS_RECORDING
+int x509_exts_check(const uint8_t *exts, size_t extslen, int cert_type, int *path_len_constraint)
+REQUIRES(extslen <= (size_t)INT_MAX && (extslen == 0 || (exts != NULL && RD_OK(exts, extslen))) && WR_OK(path_len_constraint, sizeof(int)))
+ASSIGNS(*path_len_constraint, G_ec_last, G_ec_type, G_ec_exts, G_ec_extslen, G_ec_calls)
+ENSURES(RET == 1 || RET == -1)
+ENSURES(G_ec_last == RET && G_ec_type == cert_type && G_ec_exts == (size_t)exts && G_ec_extslen == extslen && G_ec_calls == OLD(G_ec_calls) + 1)
+ENSURES(RET == 1 IMPLIES *path_len_constraint >= -1)
+;
+#endif
+/* C07: a certificate is accepted for a role only if it is v3 with a serial number, inside its validity period NOW (the clock is
+   read in this call), has non-empty well-formed issuer and subject names, its extensions fit THAT role, and the inner and outer
+   signature algorithm identifiers agree */
+#ifndef CONTRACT_CHAIN
+int x509_cert_check(const uint8_t *cert, size_t certlen, int cert_type, int *path_len_constraint)
+REQUIRES(certlen <= (size_t)INT_MAX && RD_OK(cert, certlen) && WR_OK(path_len_constraint, sizeof(int)) && G_nc_bad == 0)
+ASSIGNS(*path_len_constraint, G_gd_version, G_gd_serial, G_gd_serial_len, G_gd_tbs_alg, G_gd_sig_alg, G_gd_nb, G_gd_na, G_gd_exts, G_gd_extslen, G_gd_calls,
+	G_now, G_time_calls, G_vc_last, G_vc_nb, G_vc_na, G_vc_now, G_vc_calls, G_nc_calls, G_nc_bad, G_ec_last, G_ec_type, G_ec_exts, G_ec_extslen, G_ec_calls)
+ENSURES(RET == 1 || RET == -1)
+ENSURES(RET == 1 IMPLIES G_gd_calls == OLD(G_gd_calls) + 1 && G_gd_version == X509_version_v3 && G_gd_serial != 0 && G_gd_serial_len != 0 && G_gd_tbs_alg == G_gd_sig_alg)
+ENSURES(RET == 1 IMPLIES G_time_calls == OLD(G_time_calls) + 1 && G_vc_calls == OLD(G_vc_calls) + 1 && G_vc_last == 1 && G_vc_nb == G_gd_nb && G_vc_na == G_gd_na && G_vc_now == G_now)
+ENSURES(RET == 1 IMPLIES G_nc_calls == OLD(G_nc_calls) + 2 && G_nc_bad == 0)
+ENSURES(RET == 1 IMPLIES G_ec_calls == OLD(G_ec_calls) + 1 && G_ec_last == 1 && G_ec_type == cert_type)
+ENSURES(RET == 1 IMPLIES G_ec_exts == G_gd_exts)
+ENSURES(RET == 1 IMPLIES G_ec_extslen == G_gd_extslen)
+ENSURES(RET == 1 IMPLIES *path_len_constraint >= -1)
+;
+#endif
 #endif
 #endif
